@@ -496,6 +496,11 @@ func (x *Exec) evalCall(c *evalCtx, call ECall) (Val, error) {
 		return intV(Ite(Le(a[0].T, a[1].T), a[0].T, a[1].T)), nil
 	case "max":
 		return intV(Ite(Ge(a[0].T, a[1].T), a[0].T, a[1].T)), nil
+	case "sameDynType":
+		x.declIfaceFns()
+		return boolV(Eq(x.msgTag(a[0]), x.msgTag(a[1]))), nil
+	case "IsNil":
+		return boolV(x.isNilTerm(a[0])), nil
 	case "reliable":
 		return boolV(BoolT(!x.Faulty)), nil
 	case "fresh":
